@@ -45,13 +45,13 @@ Step(e) ==
               ELSE /\ stats' = [stats EXCEPT !.sels = @ + 1, !.invalid = @ + 1] /\ UNCHANGED <<cfg, bad, skip>>
          ELSE IF ~proper THEN UNCHANGED <<cfg, bad, skip, stats>>        \* overlapping blocks: not a selection, not judged
          ELSE IF e.res # "ok" THEN RejectItems(e, <<[diag |-> "valid-selection-refused", msg |-> e.msg] @@ info>>) /\ UNCHANGED stats
-         ELSE IF e.vals # Expected(cfg.dims, e.sel)
-         THEN RejectItems(e, <<[diag |-> "partial-read-differs-from-full-read", got |-> e.vals, exp |-> Expected(cfg.dims, e.sel)] @@ info>>) /\ UNCHANGED stats
+         ELSE IF e.vals # ExpectedVals(cfg.dims, cfg.wdims, e.sel)
+         THEN RejectItems(e, <<[diag |-> "partial-read-differs-from-full-read", got |-> e.vals, exp |-> ExpectedVals(cfg.dims, cfg.wdims, e.sel), resized |-> cfg.wdims # cfg.dims] @@ info>>) /\ UNCHANGED stats
          ELSE /\ stats' = [stats EXCEPT !.sels = @ + 1, !.valid = @ + 1, !.multichunk = @ + (IF SpansChunks(e.sel) THEN 1 ELSE 0)]
               /\ UNCHANGED <<cfg, bad, skip>>
     [] e.op = "full" ->
          IF e.res = "ok" /\ e.identity THEN UNCHANGED <<cfg, bad, skip, stats>>
-         ELSE /\ PrintT(<<"BAD", ToJson([case |-> e.case, at |-> l, cfg |-> cfg, items |-> <<[diag |-> "full-read-wrong", res |-> e.res]>>])>>)
+         ELSE /\ PrintT(<<"BAD", ToJson([case |-> e.case, at |-> l, cfg |-> cfg, items |-> <<[diag |-> "full-read-wrong", res |-> e.res, resized |-> cfg.wdims # cfg.dims]>>])>>)
               /\ bad' = bad + 1 /\ skip' = TRUE /\ UNCHANGED <<cfg, stats>>
     [] e.op = "iter" ->
          LET V == e.visited
@@ -59,7 +59,7 @@ Step(e) ==
              items == (IF e.res # "ok" THEN <<[diag |-> "chunk-iterator-failed", msg |-> e.msg]>> ELSE <<>>)
                       \o (IF e.res = "ok" /\ (Len(V) # Cardinality(seen) \/ seen # ChunkCoordsAll)
                           THEN <<[diag |-> "chunk-iterator-does-not-visit-each-chunk-once", visited |-> Len(V), chunks |-> Cardinality(ChunkCoordsAll)]>> ELSE <<>>)
-                      \o (IF e.res = "ok" /\ \E i \in DOMAIN V : V[i].coords \in ChunkCoordsAll /\ V[i].vals # Expected(cfg.dims, RegionSel(V[i].coords))
+                      \o (IF e.res = "ok" /\ \E i \in DOMAIN V : V[i].coords \in ChunkCoordsAll /\ V[i].vals # ExpectedVals(cfg.dims, cfg.wdims, RegionSel(V[i].coords))
                           THEN <<[diag |-> "chunk-piece-differs-from-full-read"]>> ELSE <<>>)
          IN IF items # <<>> THEN RejectItems(e, items) /\ UNCHANGED stats
             ELSE /\ stats' = [stats EXCEPT !.iters = @ + 1, !.chunks = @ + Len(V)] /\ UNCHANGED <<cfg, bad, skip>>
